@@ -46,7 +46,8 @@ impl Property for C07 {
                 .collect();
             Case { lang, text: words.join(" "), th_bits, hints: vec![] }
         });
-        (prop_oneof![6 => from_sentence, 3 => salad], prop_oneof![2 => Just(vec![]), 1 => proptest::collection::vec(any::<u8>(), 1..24)])
+        let shaped = super::c06::shaped_texts().prop_map(|(lang, text, th_bits)| Case { lang, text, th_bits, hints: vec![] });
+        (prop_oneof![6 => from_sentence, 3 => salad, 1 => shaped], prop_oneof![2 => Just(vec![]), 1 => proptest::collection::vec(any::<u8>(), 1..24)])
             .prop_map(|(mut c, hints)| {
                 c.hints = hints;
                 c
